@@ -358,11 +358,15 @@ static struct {
     int n;
     volatile int join_issued, round_over, stop;
     long released;
+    int use_barrier, nb; /* the units block in ABT_barrier_wait; the releaser is the last arriver */
+    ABT_barrier bar;
 } PR;
 static void pr_unit(void *arg)
 {
     int i = (int)(long)arg;
-    if (PR.blocks[i])
+    if (PR.blocks[i] && PR.use_barrier)
+        ABT_OK(ABT_barrier_wait(PR.bar));
+    else if (PR.blocks[i])
         ABT_OK(ABT_eventual_wait(PR.ev[i], NULL));
     else
         ABT_OK(ABT_thread_yield());
@@ -377,20 +381,29 @@ static void pr_releaser(void *arg)
             /* a few steps later, so that the joined stream finds its pool empty first */
             for (int k = 0; k < 3 + (int)sim_rand_n(SIM_RS_CHAOS, 40); k++)
                 sim_yield();
-            for (int i = 0; i < PR.n; i++)
-                if (PR.blocks[i]) {
-                    ABT_OK(ABT_eventual_set(PR.ev[i], NULL, 0));
-                    PR.released++;
+            if (PR.use_barrier) {
+                if (PR.nb > 0) {
+                    ABT_OK(ABT_barrier_wait(PR.bar)); /* the last arrival: everybody returns */
+                    PR.released += PR.nb;
                     sim_progress();
                 }
+            } else
+                for (int i = 0; i < PR.n; i++)
+                    if (PR.blocks[i]) {
+                        ABT_OK(ABT_eventual_set(PR.ev[i], NULL, 0));
+                        PR.released++;
+                        sim_progress();
+                    }
             PR.round_over = 1;
         }
         sim_yield();
     }
 }
+static int pool_reuse_barrier;
 static void run_pool_reuse(void)
 {
     memset(&PR, 0, sizeof PR);
+    PR.use_barrier = pool_reuse_barrier;
     wl_env_swarm();
     ABT_OK(ABT_init(0, NULL));
     static const ABT_pool_kind pk[] = { ABT_POOL_FIFO, ABT_POOL_FIFO_WAIT, ABT_POOL_RANDWS };
@@ -406,10 +419,16 @@ static void run_pool_reuse(void)
         PR.join_issued = 0;
         PR.round_over = 0;
         ABT_OK(ABT_xstream_create_basic(sk[plan_n(4)], 1, &PR.P, ABT_SCHED_CONFIG_NULL, &xs));
+        PR.nb = 0;
+        for (int i = 0; i < PR.n; i++) {
+            PR.blocks[i] = plan_n(3) != 0;
+            PR.nb += PR.blocks[i];
+        }
+        if (PR.use_barrier && PR.nb > 0)
+            ABT_OK(ABT_barrier_create((uint32_t)PR.nb + 1, &PR.bar));
         for (int i = 0; i < PR.n; i++) {
             PR.done[i] = 0;
-            PR.blocks[i] = plan_n(3) != 0;
-            if (PR.blocks[i])
+            if (PR.blocks[i] && !PR.use_barrier)
                 ABT_OK(ABT_eventual_create(0, &PR.ev[i]));
             th[i] = ABT_THREAD_NULL;
             ABT_OK(ABT_thread_create(PR.P, pr_unit, (void *)(long)i, ABT_THREAD_ATTR_NULL, plan_bool() ? &th[i] : NULL));
@@ -463,8 +482,10 @@ static void run_pool_reuse(void)
         while (!PR.round_over)
             ABT_OK(ABT_thread_yield());
         for (int i = 0; i < PR.n; i++)
-            if (PR.blocks[i])
+            if (PR.blocks[i] && !PR.use_barrier)
                 ABT_OK(ABT_eventual_free(&PR.ev[i]));
+        if (PR.use_barrier && PR.nb > 0)
+            ABT_OK(ABT_barrier_free(&PR.bar));
         sim_progress();
     }
     PR.stop = 1;
@@ -484,6 +505,15 @@ static void run_c01_pool_reuse(void)
 }
 SIM_WORKLOAD("C06", "pool-reuse", run_c06_pool_reuse, 3)
 SIM_WORKLOAD("C01", "pool-reuse", run_c01_pool_reuse, 2)
+/* C08: the waiters of a barrier sit in a pool that changes hands; the stream that owns the pool
+ * when the last caller arrives keeps running until all of them have returned */
+static void run_c08_pool_reuse(void)
+{
+    pool_reuse_barrier = 1;
+    run_pool_reuse();
+    pool_reuse_barrier = 0;
+}
+SIM_WORKLOAD("C08", "waiters-in-a-reused-pool", run_c08_pool_reuse, 2)
 
 /* ---- scenario "priv-pool": a stream schedules an entry pool Q (MPMC) and a private pool P
  * (ABT_POOL_ACCESS_PRIV: every push and pop happens on that stream).  Workers created in P by a
